@@ -2,6 +2,7 @@
 //! C13 (--counter nai) and C14 (--export / --import).
 
 use crate::engine::*;
+use crate::formula::F;
 use crate::gen::{self, AdfCase, LabelClass};
 use crate::known::known_or_fail;
 use crate::oracle::{self, Interp, Oracle, Tv};
@@ -189,6 +190,52 @@ pub struct CliCase {
     /// logging options (-q, -v, -vv, --rust_log X): log output goes to stderr and must not change stdout
     #[serde(default)]
     pub verbosity: u8,
+    /// white space inserted after the first fact so that the file is larger than 64 / 128 KiB and a multi-byte character of a
+    /// later label lies across that byte offset: (which multi-byte character, offset inside it, which multiple of 64 KiB)
+    #[serde(default)]
+    pub pad: Option<(u8, u8, u8)>,
+}
+
+/// insert a run of white space after the first fact (see `CliCase::pad`)
+pub fn pad_text(text: &str, pad: (u8, u8, u8)) -> String {
+    // end of the first fact: the first '.' outside a quoted label
+    let mut in_q = false;
+    let mut cut = None;
+    for (i, ch) in text.char_indices() {
+        match ch {
+            '"' => in_q = !in_q,
+            '.' if !in_q => {
+                cut = Some(i + 1);
+                break;
+            }
+            _ => {}
+        }
+    }
+    let Some(cut) = cut else { return text.to_string() };
+    let rest = &text[cut..];
+    let multi: Vec<(usize, usize)> = rest.char_indices().filter(|(_, c)| c.len_utf8() > 1).map(|(i, c)| (i, c.len_utf8())).collect();
+    let boundary = 65536usize * (1 + pad.2 as usize % 2);
+    let target = if multi.is_empty() {
+        cut + rest.len().min(pad.0 as usize)
+    } else {
+        let (off, len) = multi[pad.0 as usize % multi.len()];
+        cut + off + 1 + (pad.1 as usize % (len - 1))
+    };
+    if target >= boundary {
+        return text.to_string();
+    }
+    let fill = boundary - target;
+    let mut out = String::with_capacity(text.len() + fill);
+    out.push_str(&text[..cut]);
+    for i in 0..fill {
+        out.push(match (i * 7 + pad.0 as usize) % 23 {
+            0 => '\n',
+            1 => '\t',
+            _ => ' ',
+        });
+    }
+    out.push_str(rest);
+    out
 }
 
 /// parse one printed interpretation line into label -> value pairs (in printed order)
@@ -294,7 +341,13 @@ pub fn write_input(text: &str) -> Result<PathBuf, String> {
 }
 
 fn c15_check(c: &CliCase, st: &mut Stats) -> CheckResult {
-    let text = c.adf.text();
+    let text = match c.pad {
+        Some(p) => pad_text(&c.adf.text(), p),
+        None => c.adf.text(),
+    };
+    if c.pad.is_some() {
+        st.label(if text.len() > 131000 { "file>128KiB" } else if text.len() > 65000 { "file>64KiB" } else { "file small" });
+    }
     let n = c.adf.n();
     let o = Oracle::new(&c.adf.acs);
     let (grd, _) = o.grounded();
@@ -591,6 +644,90 @@ pub fn sem_cli_part(name: &'static str, allowed: &'static [Flag], cases: u32) ->
     )
 }
 
+/// input files larger than 64 / 128 KiB (white space after the first fact) whose labels contain multi-byte characters,
+/// one of which lies across the 64 KiB / 128 KiB byte offset; same oracle as every other CLI run
+pub fn padded_cli_part(name: &'static str, cases: u32) -> Box<dyn DynPart> {
+    Part::with_shrink(
+        name,
+        cases,
+        60,
+        || {
+            (cli_case(), proptest::sample::subsequence(vec![Flag::Grd, Flag::Com, Flag::Stm], 1..=3), any::<(u8, u8, u8)>(), proptest::collection::vec(0u8..4, 6))
+                .prop_map(|(mut c, flags, pad, marks)| {
+                    c.flags = flags;
+                    c.heu = None;
+                    c.counter = false;
+                    for (i, l) in c.adf.labels.iter_mut().enumerate() {
+                        // labels with characters of 2, 3 and 4 bytes (quoted by the renderer)
+                        match marks[i % marks.len()] {
+                            0 => l.push('\u{e9}'),
+                            1 => l.push('\u{20ac}'),
+                            2 => l.push_str("\u{1f600}\u{e4}"),
+                            _ => {}
+                        }
+                    }
+                    c.adf.labels[0].push('\u{20ac}');
+                    c.pad = Some(pad);
+                    c
+                })
+                .boxed()
+        },
+        c15_check,
+    )
+}
+
+/// input files with one condition nested hundreds of levels deep (all connectives), through the CLI in all three modes
+#[derive(Clone, Debug, Serialize, Deserialize, Hash)]
+pub struct DeepCli {
+    pub n: u8,
+    pub depth: u16,
+    pub spec: Vec<(u8, u8)>,
+    pub flags: u8,
+}
+
+fn deep_cli_check(c: &DeepCli, st: &mut Stats) -> CheckResult {
+    let n = (c.n as usize).clamp(2, 4);
+    let mut acs: Vec<F> = (0..n).map(|i| F::Atom((i + 1) % n)).collect();
+    let mut f = F::Atom(0);
+    for d in 0..c.depth as usize {
+        let (k, a) = c.spec[d % c.spec.len()];
+        let x = F::Atom(a as usize % n);
+        f = match k % 7 {
+            0 => F::not(f),
+            1 => F::and(x, f),
+            2 => F::or(f, x),
+            3 => F::imp(f, x),
+            4 => F::imp(x, f),
+            5 => F::iff(x, f),
+            _ => F::xor(f, x),
+        };
+    }
+    acs[0] = f;
+    let adf = AdfCase { acs, labels: (0..n).map(|i| format!("d{i}")).collect(), layout: gen::Layout { keys: (0..2 * n as u16).collect(), ws: vec![0] } };
+    let mut flags = vec![Flag::Grd];
+    if c.flags & 1 == 1 {
+        flags.push(Flag::Com);
+    }
+    if c.flags & 2 == 2 {
+        flags.push(Flag::Stm);
+    }
+    let case = CliCase { adf, sort: Sort::None, flags, heu: None, counter: false, verbosity: 0, pad: None };
+    let r = c15_check(&case, st);
+    // the nested structure itself must not be dropped recursively on a small stack later on: fine at these depths
+    st.label(&format!("nesting>={}", (c.depth / 100) * 100));
+    r
+}
+
+pub fn deep_cli_part(name: &'static str, cases: u32) -> Box<dyn DynPart> {
+    Part::with_shrink(
+        name,
+        cases,
+        40,
+        || (2u8..5, 500u16..900, proptest::collection::vec((0u8..7, any::<u8>()), 37..90), 0u8..4).prop_map(|(n, depth, spec, flags)| DeepCli { n, depth, spec, flags }).boxed(),
+        deep_cli_check,
+    )
+}
+
 fn cli_case() -> BoxedStrategy<CliCase> {
     (
         cli_adf(1, 5, 1),
@@ -600,7 +737,7 @@ fn cli_case() -> BoxedStrategy<CliCase> {
         proptest::bool::weighted(0.15),
         0u8..8,
     )
-        .prop_map(|(adf, sort, flags, heu, counter, verbosity)| CliCase { adf, sort, flags, heu, counter, verbosity })
+        .prop_map(|(adf, sort, flags, heu, counter, verbosity)| CliCase { adf, sort, flags, heu, counter, verbosity, pad: None })
         .boxed()
 }
 
@@ -625,6 +762,9 @@ pub fn c15(tier: Tier) -> PropSpec {
         parts: vec![
             Part::with_shrink("runs", tier.pick(2500, 25000), 300, cli_case, c15_check),
             Part::with_shrink("malformed", tier.pick(300, 3000), 300, malformed_case, cli_reject_check),
+            padded_cli_part("runs-padded", tier.pick(120, 1200)),
+            // one condition nested 500..900 levels deep
+            deep_cli_part("runs-deep", tier.pick(60, 600)),
         ],
     }
 }
